@@ -241,6 +241,19 @@ theorem isUnsigned_signedOnly : ∀ (t : Tree), SignedOnly t → ∀ u, isUnsign
           subst ea eb
           simp [hc, ha, hb] at hu; exact hu
 
+theorem lookup_opMap (s : Sym) : opMap.lookup s =
+    match s with
+    | .star => some (11, false, some .mul) | .slash => some (11, false, some .intDiv)
+    | .percent => some (11, false, some .intRem) | .plus => some (10, false, some .add)
+    | .minus => some (10, false, some .sub) | .shl => some (9, false, some .lshift)
+    | .shr => some (9, false, some .rshift) | .lt => some (8, false, some .lt) | .gt => some (8, false, some .gt)
+    | .le => some (8, false, some .le) | .ge => some (8, false, some .ge) | .eqeq => some (7, false, some .eq)
+    | .ne => some (7, false, some .ne) | .amp => some (6, false, some .and_) | .caret => some (5, false, some .xor)
+    | .bar => some (4, false, some .or_) | .andand => some (3, false, some .land)
+    | .oror => some (2, false, some .lor) | .quest => some (1, true, none)
+    | _ => none := by
+  cases s <;> rfl
+
 def fnOf : BinOp → OpFn
   | .mul => .mul | .div => .intDiv | .mod => .intRem | .add => .add | .sub => .sub | .shl => .lshift
   | .shr => .rshift | .lt => .lt | .gt => .gt | .le => .le | .ge => .ge | .eq => .eq | .ne => .ne
@@ -256,7 +269,80 @@ theorem evalTree_bin {op : BinOp} (hl : op ≠ .land) (hr : op ≠ .lor) {a b : 
     first
     | exact absurd rfl hl
     | exact absurd rfl hr
-    | (simp only [evalTree, binSym, Spec.PPInt.BinOp.sym, reduceCtorEq, if_false, ha, hb]
-       simp [opMap, List.lookup, fnOf])
+    | (simp only [evalTree, binSym, Spec.PPInt.BinOp.sym, reduceCtorEq, if_false, ha, hb, lookup_opMap]
+       simp [fnOf])
+
+theorem signedOk_ofBool (b : Bool) : signedOk (Spec.PPInt.ofBool b).v = true := by
+  cases b <;> decide
+
+theorem arith_signed {r : Int} {v : Val} (h : arith false r = some v) : v = ⟨r, false⟩ ∧ signedOk r = true := by
+  simp only [arith, Bool.false_eq_true, if_false] at h
+  split at h
+  · rename_i hr; injection h with h; exact ⟨h.symm, hr⟩
+  · cases h
+
+/-- a binary operator other than `&&`/`||` applied to two `intmax_t` values -/
+theorem evalBin_signed {op : BinOp} (hl : op ≠ .land) (hr : op ≠ .lor) {x y : Int} {r : Val}
+    (hx : signedOk x = true) (hy : signedOk y = true) (h : evalBin op ⟨x, false⟩ ⟨y, false⟩ = some r)
+    {a b : MTree} (ha : evalTree a = .ok x) (hb : evalTree b = .ok y) :
+    r.u = false ∧ signedOk r.v = true ∧ evalTree (.bin (binSym op) a b) = .ok r.v := by
+  rw [evalTree_bin hl hr ha hb]
+  cases op <;>
+    simp only [evalBin, Bool.or_self, Bool.false_eq_true, if_false, reduceCtorEq, false_or, or_false, false_and,
+      if_false, true_or, or_true, true_and, fnOf, OpFn.apply] at h ⊢
+  · obtain ⟨rfl, hr'⟩ := arith_signed h; exact ⟨rfl, hr', rfl⟩
+  · split at h
+    · cases h
+    · rename_i hy0
+      obtain ⟨rfl, hr'⟩ := arith_signed h
+      simp only [hy0, if_false, intDiv_eq_tdiv]; exact ⟨rfl, hr', rfl⟩
+  · split at h
+    · cases h
+    · rename_i hy0
+      split at h
+      · obtain ⟨rfl, hr'⟩ := arith_signed h
+        simp only [hy0, if_false, intRem_eq_tmod]; exact ⟨rfl, hr', rfl⟩
+      · cases h
+  · obtain ⟨rfl, hr'⟩ := arith_signed h; exact ⟨rfl, hr', rfl⟩
+  · obtain ⟨rfl, hr'⟩ := arith_signed h; exact ⟨rfl, hr', rfl⟩
+  · -- shl
+    split at h
+    · cases h
+    · rename_i hc
+      have hc0 : ¬ y < 0 := by omega
+      simp only [hc0, if_false]
+      split at h
+      · cases h
+      · split at h
+        · rename_i hr'; injection h with h; subst h; exact ⟨rfl, hr', rfl⟩
+        · cases h
+  · -- shr
+    split at h
+    · cases h
+    · rename_i hc
+      have hc0 : ¬ y < 0 := by omega
+      simp only [hc0, if_false]
+      injection h with h; subst h
+      refine ⟨rfl, ?_, rfl⟩
+      have hx' := (signedOk_iff x).mp hx
+      rw [signedOk_iff]
+      have hp : (0 : Int) < 2 ^ y.toNat := Int.pow_pos (by decide)
+      by_cases h0 : 0 ≤ x
+      · have h1 : 0 ≤ x / 2 ^ y.toNat := Int.ediv_nonneg h0 (Int.le_of_lt hp)
+        have h2 : x / 2 ^ y.toNat ≤ x := Int.ediv_le_self _ h0
+        omega
+      · have h1 : x / 2 ^ y.toNat < 0 := Int.ediv_neg_of_neg_of_pos (by omega) hp
+        have h2 : x ≤ x / 2 ^ y.toNat := by
+          rw [Int.le_ediv_iff_mul_le hp]
+          have : x * 2 ^ y.toNat ≤ x * 1 := Int.mul_le_mul_of_nonpos_left (by omega) (by omega)
+          omega
+        omega
+  all_goals first
+    | (injection h with h; subst h; exact ⟨rfl, signedOk_ofBool _, rfl⟩)
+    | (rw [band_signed hx hy] at h; injection h with h; subst h; exact ⟨rfl, signedOk_PyAnd hx hy, rfl⟩)
+    | (rw [bxor_signed hx hy] at h; injection h with h; subst h; exact ⟨rfl, signedOk_PyXor hx hy, rfl⟩)
+    | (rw [bor_signed hx hy] at h; injection h with h; subst h; exact ⟨rfl, signedOk_PyOr hx hy, rfl⟩)
+    | exact absurd rfl hl
+    | exact absurd rfl hr
 
 end Proofs.PPExpr
